@@ -54,4 +54,8 @@ def conv_session(beh, tid):
     return [{"t": tid, "pkg": beh["pkg"], "script": script}]
 
 
-CONVERTERS = {"packet": conv_packet, "frame": conv_frame, "session": conv_session}
+def conv_builder(beh, tid):
+    return [{"t": tid, "steps": [{"a": s["a"], "v": list(s["v"])} for s in beh["steps"]]}]
+
+
+CONVERTERS = {"packet": conv_packet, "frame": conv_frame, "session": conv_session, "builder": conv_builder}
